@@ -449,11 +449,13 @@ fn c12a_garbage_after_stream() {
 
 // C07-E: a zero-length read in the middle of a block returns Ok(0) and does not disturb the stream (it must not be
 // mistaken for the end of the block).
-//@ {"name":"c07e_xz_zero_len_read_mid_block","props":["C07"],"obligation":"C07-E","timeout":900,"functions":["xz::reader::XZReader::read"],"bounds":"reader in the state 'inside a block' (stream header parsed, CRC32 calculator active), inner chain = a source with 4 unread bytes; destination length 0, then 4","assumes":["block chain replaced by a plain byte source (the filter chain is not the subject)"],"stubs":["block chain = Src"]}
+//@ {"name":"c07e_xz_zero_len_read_mid_block","props":["C07"],"obligation":"C07-E","timeout":900,"functions":["xz::reader::XZReader::read"],"bounds":"reader in the state 'inside a block' (stream header parsed, CRC32 calculator active), inner chain = a source with 4 unread (concrete) bytes; destination length 0, then 4","assumes":["block chain replaced by a plain byte source (the filter chain is not the subject)"],"stubs":["block chain = Src"]}
 #[kani::proof]
 #[kani::unwind(10)]
 fn c07e_xz_zero_len_read_mid_block() {
-    let data: [u8; 4] = kani::any();
+    // concrete payload: on a tree where the zero-length read falls through to the end-of-block path, symbolic bytes
+    // would send CBMC through the whole block-header parser and filter-chain construction (measured: > 900 s)
+    let data: [u8; 4] = [1, 2, 3, 4];
     let mut r = XZReader::new(Src::<4>::full(data), false);
     r.stream_header = Some(StreamHeader { check_type: CheckType::Crc32 });
     r.checksum_calculator = Some(ChecksumCalculator::new(CheckType::Crc32));
@@ -499,5 +501,35 @@ fn c16c_xz_stops_after_footer() {
     assert!(matches!(r.read(&mut out), Ok(0)));
     assert!(r.original_reader.borrow().pos == 20, "C16-C: bytes after the stream were consumed");
     kani::cover!(trailing[0] == 0xFD, "another stream follows");
+    core::mem::forget(r);
+}
+
+// C04-A: end of stream: the index must list exactly as many records as blocks were decoded, and the footer's stream
+// flags must equal the header's - otherwise blocks were dropped/duplicated or the check type was switched.
+//@ {"name":"c04a_index_count_and_flags_match","props":["C04","C12"],"obligation":"C04-A","timeout":1800,"mem_gb":9,"functions":["xz::reader::XZReader::parse_index_and_footer","xz::reader::Index::parse","xz::reader::StreamFooter::parse"],"bounds":"valid empty index (0 records) + valid footer whose flags byte is symbolic over the 4 check ids (CRC fixed up); blocks_processed symbolic 0..=3; stream header check type CRC32; unwind 24","assumes":[]}
+#[kani::proof]
+#[kani::unwind(24)]
+fn c04a_index_count_and_flags_match() {
+    let mut buf = [0u8; 19];
+    // index body after the indicator byte: 00 (count) | 00 00 (padding) | crc32 over [00 00 00 00]
+    let ic = crc32_of(&[0u8, 0, 0, 0]).to_le_bytes();
+    buf[3] = ic[0]; buf[4] = ic[1]; buf[5] = ic[2]; buf[6] = ic[3];
+    let fl: u8 = kani::any();
+    kani::assume(fl == 0 || fl == 1 || fl == 4 || fl == 10);
+    let body = [1u8, 0, 0, 0, 0, fl];
+    let fc = crc32_of(&body).to_le_bytes();
+    buf[7] = fc[0]; buf[8] = fc[1]; buf[9] = fc[2]; buf[10] = fc[3];
+    let mut i = 0;
+    while i < 6 { buf[11 + i] = body[i]; i += 1; }
+    buf[17] = b'Y'; buf[18] = b'Z';
+    let mut r = XZReader::new(Src::<19>::full(buf), false);
+    r.stream_header = Some(StreamHeader { check_type: CheckType::Crc32 });
+    let blocks: u64 = kani::any();
+    kani::assume(blocks <= 3);
+    r.blocks_processed = blocks;
+    let res = r.parse_index_and_footer();
+    assert!(res.is_ok() == (blocks == 0 && fl == 1), "C04-A: stream end accepted although block count or stream flags disagree (or refused although they agree)");
+    kani::cover!(blocks == 2 && fl == 1, "blocks missing from the index");
+    kani::cover!(blocks == 0 && fl == 4, "footer names a different check type");
     core::mem::forget(r);
 }
